@@ -367,7 +367,7 @@ Proof. regress [L_ex; LToks [] [] (Some (Str " a "" #b")); toks_line [ASubj exs;
               toks_line [AObj (OLit (Str "") LPlain); AComma; AObj (OLit (Str "b #c") LPlain); ADot]]
              [P_ex; IGrp (Group exs [(exp, [OLit (Str "a") LPlain; OLit (Str "") LPlain; OLit (Str "b #c") LPlain])])]. Qed.
 
-(** <commit-B>: the literal kind is read from what follows the last quote: "xsd:" in the
+(** 0a5a576: the literal kind is read from what follows the last quote: "xsd:" in the
     lexical form, '@' in the datatype IRI, quote-^^ in the lexical form no longer matter *)
 Example C07_literal_suffix_regression :
   regression [L_ex; toks_line [ASubj exs; APred exp; AObj (OLit (Str "xsd:foo") (LTyped (IAbs (Str "http://e/dt")))); AComma;
